@@ -145,4 +145,11 @@ static const char *CONF_MG =
 // metadynamics with grids: hills near the boundary are kept for the analytic evaluation outside the grid; the last step leaves the grid
 extern "C" void h_c03_meta_offgrid() { static const int Ks[2] = {1, 2}; LAST_OUTSIDE = true; scenario(CONF_MG, 3, 2, Ks, true, 1.5, 2.5); LAST_OUTSIDE = false; }
 
+static const char *CONF_MK =
+  "units real\ncolvarsTrajFrequency 0\n"
+  "colvar {\n name d\n width 0.5\n lowerBoundary 1.0\n upperBoundary 3.0\n distance {\n group1 { atomNumbers 1 }\n group2 { atomNumbers 2 }\n }\n}\n"
+  "metadynamics {\n name m\n colvars d\n hillWeight 0.1\n hillWidth 2.0\n newHillFrequency 1\n keepHills on\n}\n";
+// metadynamics with grids and keepHills: the state carries the grids and the complete list of hills
+extern "C" void h_c03_meta_keephills() { static const int Ks[2] = {1, 2}; scenario(CONF_MK, 2, 2, Ks, true, 1.5, 2.5); }
+
 extern "C" void h_c03_setup() { px = nullptr; }
